@@ -8,6 +8,7 @@ import (
 
 	"github.com/lmorg/murex/builtins/pipes/null"
 	"github.com/lmorg/murex/lang/stdio"
+	"github.com/lmorg/murex/utils/verifhook"
 )
 
 // Named is a table of created named pipes
@@ -99,12 +100,14 @@ func (n *Named) Close(name string) error {
 func closePipe(n *Named, name string) {
 	time.Sleep(2 * time.Second)
 
+	verifhook.Yield("pipes.closePipe.beforeLock")
 	n.mutex.Lock()
 
 	n.pipes[name].Pipe.Close()
 	delete(n.pipes, name)
 
 	n.mutex.Unlock()
+	verifhook.Event("pipe.expire", name)
 }
 
 // Deletes a named pipe without closing it (careful using this!!!)
@@ -123,6 +126,7 @@ func (n *Named) Delete(name string) error {
 
 	n.mutex.Unlock()
 
+	verifhook.Yield("pipes.Delete.gap")
 	delete(n.pipes, name)
 	return nil
 }
